@@ -22,7 +22,7 @@ for p in allp:
         "replay_cmd_template": "./check %s --replay {path}" % pid,
         "engine": "tla-conformance",
         "level_claimed": {"category": props.PROPS[pid]["level"], "text": t["text"], "design_ref": t.get("ref", "DESIGN.md section 6")},
-        "level_note": t.get("note", "TLC + SANY, the harness scheduler and VPtr, the value abstraction of the tracer; SC interleavings; bounds as in evidence"),
+        "level_note": t.get("level_note", "TLC + SANY, the harness scheduler and VPtr, the value abstraction of the tracer; SC interleavings; bounds as in evidence"),
         "technique": t.get("technique", "TLA+ specification (ArcSwapAbs/ArcSwapImpl) model-checked with TLC + TLC trace validation of real executions"),
     })
 na = [{"property_id": p["id"], "reason": props.NOT_APPLICABLE.get(p["id"], "check not built yet (see DESIGN.md section 10)")}
